@@ -518,7 +518,15 @@ func writeEvidence(c *Ctx, id, tier string, seed int, reports []*fnReport, all, 
 			nVac++
 		}
 	}
+	// the ten slowest discharged obligations (proof stability is watched here: anything near the timeout is fragile)
+	sl := append([]*Obligation{}, all...)
+	sort.SliceStable(sl, func(i, j int) bool { return sl[i].Ms > sl[j].Ms })
+	var slowest []string
+	for i := 0; i < len(sl) && i < 10; i++ {
+		slowest = append(slowest, fmt.Sprintf("%s %dms %s", sl[i].Name, sl[i].Ms, sl[i].Backend))
+	}
 	cov := map[string]interface{}{
+		"slowest":     slowest,
 		"obligations": len(all), "discharged": nDis,
 		"checker_cmd":  "bin/check " + id + " " + tier,
 		"trusted_base": tb, "samples": samples,
